@@ -264,7 +264,7 @@ def run(ctx) -> None:
     cmp_bf = None
     cmp_desc = ""
     for a in gpc.atoms:
-        tree = ast.parse(a, mode="eval").body
+        tree = shapes.inline(gate, ast.parse(a, mode="eval").body, prog)
         cs = shapes.compare_shape(tree)
         if cs is None:
             continue
@@ -361,13 +361,14 @@ def full_match_rule(ctx, eng: str, rule: str = "R4") -> None:
     desc = "regexp.fullmatch" if full else ""
     if not full:
         for a in pc.atoms:
-            tree = ast.parse(a, mode="eval").body
+            tree = shapes.inline(fn, ast.parse(a, mode="eval").body, prog)
             cs = shapes.compare_shape(tree)
             if cs is None:
                 continue
             op, l, r = cs
             lt, rt = unparse(l), unparse(r)
-            ends = (f"len({mvar}.group())", f"len({mvar}.group(0))", f"{mvar}.end()", f"{mvar}.span()[1]", f"len({mvar}[0])")
+            M = shapes.inline_text(fn, ast.Name(id=mvar, ctx=ast.Load()), prog)
+            ends = tuple(t.format(m=m) for m in (mvar, M) for t in ("len({m}.group())", "len({m}.group(0))", "{m}.end()", "{m}.span()[1]", "len({m}[0])"))
             total = f"len({p_ver})"
             if rt in ends and lt == total:
                 lt, rt, op = rt, lt, shapes.mirror(op)
